@@ -12,9 +12,10 @@ CONSTANTS
  Chunks = {5}
  LyingSizes = FALSE
  InlineData = FALSE
- Conc = 3
+ Conc = 1
  Probes = FALSE
  Exts = {FALSE}
+ KeepSlots = FALSE
 INIT Init
 NEXT Next
 VIEW View
